@@ -1925,6 +1925,12 @@ class MapResult(ApplyResult):
         success, result = success_result
         if success:
             self._value[i * self._chunksize:(i + 1) * self._chunksize] = result
+            # the worker that ran this part no longer holds an unfinished
+            # part of the job: its exit (e.g. recycling) must not count
+            # as losing the job.
+            for j in range(i * self._chunksize,
+                           min((i + 1) * self._chunksize, self._length)):
+                self._worker_pid[j] = None
             self._number_left -= 1
             if self._number_left == 0:
                 if self._callback:
@@ -1976,7 +1982,7 @@ class IMapIterator:
         self._length = None
         self._ready = False
         self._unsorted = {}
-        self._worker_pids = []
+        self._worker_pids = {}      # index of an unfinished part -> worker pid
         self._lost_worker_timeout = lost_worker_timeout
         cache[self._job] = self
 
@@ -2009,6 +2015,7 @@ class IMapIterator:
 
     def _set(self, i, obj):
         with self._cond:
+            self._worker_pids.pop(i, None)
             if self._index == i:
                 self._items.append(obj)
                 self._index += 1
@@ -2033,13 +2040,14 @@ class IMapIterator:
                 del self._cache[self._job]
 
     def _ack(self, i, time_accepted, pid, *args):
-        self._worker_pids.append(pid)
+        self._worker_pids[i] = pid
 
     def ready(self):
         return self._ready
 
     def worker_pids(self):
-        return self._worker_pids
+        # only workers holding a part that has not produced its result yet
+        return list(self._worker_pids.values())
 
 #
 # Class whose instances are returned by `Pool.imap_unordered()`
@@ -2050,6 +2058,7 @@ class IMapUnorderedIterator(IMapIterator):
 
     def _set(self, i, obj):
         with self._cond:
+            self._worker_pids.pop(i, None)
             self._items.append(obj)
             self._index += 1
             self._cond.notify()
